@@ -138,7 +138,9 @@ def run_saf(rep, tier, perm, rot, rows, header_rows=None):
             tk.restore()
 
     for ctx, (tk, cols, rec, err, text) in rep.explore(run, max_paths=20):
-        W = lambda m: {"kind": "saf", "perm": perm, "rot": rot, "rows": rows, "header_rows": header_rows}
+        W = lambda m: {"kind": "saf", "perm": perm, "rot": rot, "rows": rows, "header_rows": header_rows,
+                       "deg": (concretiser(m)(z3.Real("deg")) if (m is not None and rot == "explicit") else None),
+                       "north_rot": (concretiser(m)(z3.Real("north_rot")) if m is not None else None)}
         if header_rows is not None and header_rows != rows:
             rep.obligations += 1
             if err is not None and rec is None:
@@ -280,7 +282,7 @@ def run_regex(rep, tier, part, eol):
 
     def decide(label, cons, key):
         s = z3.Solver()
-        s.set("timeout", 30000)
+        s.set("timeout", 90000)
         s.add(*cons)
         t0 = time.time()
         r = s.check()
@@ -346,20 +348,22 @@ def replay(spec):
         cols = np.arange(3 * rows).reshape(3, rows) + 11
         ids = {v_ch: "V", n_ch: "N", e_ch: "E"}
         text = "SESAME ASCII data format (saf) v. 1\nSAMP_FREQ = 50\nNDAT = %d\n" % (spec.get("header_rows") or rows) + "".join(f"CH{c}_ID = {ids[c]}\n" for c in range(3))
+        nrot = int(round(spec.get("north_rot") or 30)) or 30
+        deg = spec.get("deg") if spec.get("deg") is not None else 12.0
         if spec["rot"] != "norot":
-            text += "NORTH_ROT = 30\n"
+            text += f"NORTH_ROT = {nrot}\n"
         text += "####---\n" + "".join(f"{cols[0][r]} {cols[1][r]} {cols[2][r]}\n" for r in range(rows))
         try:
-            rec = DW._read_saf(_io.StringIO(text), degrees_from_north=12.0 if spec["rot"] == "explicit" else None)
+            rec = DW._read_saf(_io.StringIO(text), degrees_from_north=deg if spec["rot"] == "explicit" else None)
         except Exception as e:   # noqa
             bad = not (spec.get("header_rows") not in (None, rows))
             return {"reproduced": bad, "key": "saf-refused", "detail": f"{type(e).__name__}: {e}"[:200]}
         if spec.get("header_rows") not in (None, rows):
             return {"reproduced": True, "key": "count-mismatch-accepted", "detail": "recording returned although NDAT disagrees with the rows found"}
-        want_deg = 12.0 if spec["rot"] == "explicit" else (0.0 if spec["rot"] == "norot" else 30.0 + (0 if n_ch == 1 else 90))
+        want_deg = (deg % 360) if spec["rot"] == "explicit" else (0.0 if spec["rot"] == "norot" else (nrot + (0 if n_ch == 1 else 90)) % 360)
         ok = np.array_equal(rec.vt.amplitude, cols[v_ch]) and np.array_equal(rec.ns.amplitude, cols[n_ch]) and np.array_equal(rec.ew.amplitude, cols[e_ch]) \
             and abs(rec.ns.dt_in_seconds - 0.02) < 1e-15 and abs(rec.degrees_from_north - want_deg) < 1e-9
-        return {"reproduced": not ok, "key": "saf-components", "detail": f"perm {spec['perm']} rot {spec['rot']}: ns {rec.ns.amplitude.tolist()} ew {rec.ew.amplitude.tolist()} vt {rec.vt.amplitude.tolist()} deg {rec.degrees_from_north}"}
+        return {"reproduced": not ok, "key": "saf-components" if abs(rec.degrees_from_north - want_deg) < 1e-9 else "saf-orientation", "detail": f"perm {spec['perm']} rot {spec['rot']} (explicit degrees {deg if spec['rot'] == 'explicit' else None}, NORTH_ROT {nrot}): expected orientation {want_deg}; ns {rec.ns.amplitude.tolist()} ew {rec.ew.amplitude.tolist()} vt {rec.vt.amplitude.tolist()} deg {rec.degrees_from_north}"}
     if spec["kind"] == "minishark":
         rows = spec["rows"]
         cols = (np.arange(3 * rows).reshape(3, rows) + 5) * 64
